@@ -421,9 +421,9 @@ func c31Queue(c *Ctx, pop, build *core.FuncInfo) {
 		})
 	}
 	allowed := map[site]bool{
-		{pop.Name(), "prepared.head++"}:                            true,
-		{pop.Name(), "preparedSamples[prepared.head] = nil"}:       true,
-		{build.Name(), "prepared.tail++"}:                          true,
+		{pop.Name(), "prepared.head++"}:                           true,
+		{pop.Name(), "preparedSamples[prepared.head] = nil"}:      true,
+		{build.Name(), "prepared.tail++"}:                         true,
 		{build.Name(), "preparedSamples[prepared.tail] = sample"}: true,
 	}
 	seen := map[site]bool{}
